@@ -198,3 +198,27 @@ func (n *Node) ReissueLDPresentation(captured []byte, created time.Time, expires
 	}
 	return json.Marshal(out)
 }
+
+// SignJWTLike signs the claims of an existing JWT, changed by edit, with the given key of this node.
+func (n *Node) SignJWTLike(token string, kid string, edit func(claims map[string]interface{})) (string, error) {
+	parts := strings.Split(strings.TrimSpace(token), ".")
+	if len(parts) != 3 {
+		return "", fmt.Errorf("not a compact JWT")
+	}
+	claimsJSON, err := base64.RawURLEncoding.DecodeString(parts[1])
+	if err != nil {
+		return "", err
+	}
+	dec := json.NewDecoder(bytes.NewReader(claimsJSON))
+	dec.UseNumber()
+	claims := map[string]interface{}{}
+	if err := dec.Decode(&claims); err != nil {
+		return "", err
+	}
+	edit(claims)
+	code, body := n.Call("POST", "/internal/crypto/v1/sign_jwt", map[string]interface{}{"kid": kid, "claims": claims})
+	if code != 200 {
+		return "", fmt.Errorf("sign_jwt: %d %s", code, body)
+	}
+	return strings.Trim(strings.TrimSpace(string(body)), "\""), nil
+}
